@@ -141,8 +141,8 @@ mod proofs {
     let same_text: bool = kani::any();
     let root_kind: u16 = kani::any();
     kani::assume(root_kind >= 1 && root_kind <= 8);
-    let src = if same_text { "xx" } else { "xy" };
-    (mk_grep(src, two_leaf_tree(root_kind)), same_text, root_kind)
+    let buf = [b'x', if same_text { b'x' } else { b'y' }];
+    (mk_grep(as_str(&buf, 2), two_leaf_tree(root_kind)), same_text, root_kind)
   }
 
   /// base env: symbolic pre-existing bindings
